@@ -27,7 +27,10 @@ RULE = ("every program AST with at most S nodes over {await fresh Deferred, yiel
         "awaited Deferred fires or the returned Deferred is cancelled with the awaited Deferred's canceller in {none, "
         "no-op, fires value, fires failure} (mc.choice.explore, cancels bounded per execution); every such execution "
         "is run as an inlineCallbacks generator and as a coroutine and compared with the synchronous run of the same "
-        "AST. non-trivial = distinct (program, decision list) pairs with at least one real suspension "
+        "AST; raised exceptions and Deferred failures alternate deterministically (by counter parity, no extra choice) "
+        "between an Exception subclass and a class deriving directly from BaseException, try/except catches both; "
+        "an application exception that escapes from the call, from callback()/errback()/cancel() or into the awaited "
+        "Deferred's chain is a violation. non-trivial = distinct (program, decision list) pairs with at least one real suspension "
         "(an unfired Deferred was awaited)")
 BOUNDS = {"quick": "every AST with <= 4 nodes (loops not nested) with <= 2 cancels per execution, plus every 5-node AST of the "
                    "reduced grammar (no plain-value statement; nested calls as inlineCallbacks / bare coroutine) with <= 1 "
@@ -44,7 +47,7 @@ ASSUMPTIONS = [
     "coroutines cannot await plain values: the 'plain value' statement is a local assignment there",
     "cancellers that raise, and cancel() from inside the function itself, are outside the alphabet",
 ]
-MIN = {"quick": {"evaluations": 700000, "nontrivial": 650000, "outcomes": 7},
+MIN = {"quick": {"evaluations": 700000, "nontrivial": 650000, "outcomes": 9},
        "thorough": {"evaluations": 12000000, "nontrivial": 11000000, "outcomes": 7}}
 
 NSHARDS = 64
@@ -57,6 +60,22 @@ class AppExc(Exception):
     def __init__(self, tag):
         Exception.__init__(self, tag)
         self.tag = tag
+
+
+class AppBase(BaseException):
+    """Application exception deriving directly from BaseException (like asyncio.CancelledError)."""
+
+    def __init__(self, tag):
+        BaseException.__init__(self, tag)
+        self.tag = tag
+
+
+APP = (AppExc, AppBase)
+
+
+def app_exc(tag, parity):
+    """Deterministic flavour: even -> Exception subclass, odd -> BaseException subclass."""
+    return (AppBase if parity % 2 else AppExc)(tag)
 
 
 # ------------------------------------------------------------------ the one interpreter source
@@ -89,7 +108,9 @@ TEMPLATE = '''
             sig = {CALL}run_block(env, s[1]){END}
             if sig is not None:
                 return sig
-        except Exception as e:
+        except BaseException as e:
+            if isinstance(e, GeneratorExit):
+                raise
             env.log(("caught", env.tag(e)))
             sig = {CALL}run_block(env, s[2]){END}
             if sig is not None:
@@ -146,8 +167,8 @@ icb_function = inlineCallbacks(gen_function)
 
 
 def tag_of(e):
-    if isinstance(e, AppExc):
-        return e.tag
+    if isinstance(e, APP):
+        return (type(e).__name__,) + tuple(e.tag)
     return type(e).__name__
 
 
@@ -159,6 +180,7 @@ class BaseEnv:
         self.nret = 0
         self.nexc = 0
         self.nplain = 0
+        self.nfresh = 0
 
     def log(self, ev):
         self.trace.append(ev)
@@ -169,7 +191,7 @@ class BaseEnv:
 
     def exc(self):
         self.nexc += 1
-        return AppExc(("x", self.nexc))
+        return app_exc(("x", self.nexc), self.nexc + self.nfresh)
 
     def plain(self):
         self.nplain += 1
@@ -191,6 +213,7 @@ class ModelEnv(BaseEnv):
         self.suspensions = 0
 
     def fresh(self):
+        self.nfresh += 1
         j = len(self.decisions)
         kind = KINDS[self.ch.choose(4, "state of awaited Deferred #%d" % j, free=True)]
         self.decisions.append([kind, None])
@@ -201,7 +224,7 @@ class ModelEnv(BaseEnv):
         if kind == "pre-ok":
             return ("v", j)
         if kind == "pre-fail":
-            raise AppExc(("e", j))
+            raise app_exc(("e", j), j)
         self.suspensions += 1
         c = 0
         if self.ncancels < self.max_cancels:
@@ -209,14 +232,14 @@ class ModelEnv(BaseEnv):
         if c == 0:
             if kind == "later-ok":
                 return ("v", j)
-            raise AppExc(("e", j))
+            raise app_exc(("e", j), j)
         self.ncancels += 1
         canc = CANC[c - 1]
         self.decisions[j][1] = canc
         if canc == "value":
             return ("cv", j)
         if canc == "fail":
-            raise AppExc(("ce", j))
+            raise app_exc(("ce", j), j + 1)
         raise CancelledError()
 
     def spawn(self, flavour, body):
@@ -246,6 +269,7 @@ class RealEnv(BaseEnv):
         self.canceller_runs = []
 
     def fresh(self):
+        self.nfresh += 1
         j = len(self.ds)
         if j < len(self.decisions):
             kind, canc = self.decisions[j]
@@ -263,13 +287,13 @@ class RealEnv(BaseEnv):
         elif canc == "fail":
             def c(d, j=j):
                 self.canceller_runs.append(j)
-                d.errback(AppExc(("ce", j)))
+                d.errback(app_exc(("ce", j), j + 1))
         d = Obs(c)
         self.ds.append(d)
         if kind == "pre-ok":
             d.callback(("v", j))
         elif kind == "pre-fail":
-            d.errback(AppExc(("e", j)))
+            d.errback(app_exc(("e", j), j))
         else:
             self.outstanding.append(j)
         return d
@@ -292,7 +316,7 @@ def run_model(program, ch, max_cancels):
     env = ModelEnv(ch, max_cancels)
     try:
         final = ("return", sync_function(env, program))
-    except Exception as e:
+    except (Exception, AppBase) as e:
         final = ("raise", tag_of(e))
     return env, final
 
@@ -304,6 +328,7 @@ def run_real(flavour, program, decisions, exp_trace, exp_final):
     bad = []
     fired = []
     cancelled = False
+    ret = None
 
     def suffix():
         return ":after-cancel" if cancelled else ""
@@ -336,7 +361,7 @@ def run_real(flavour, program, decisions, exp_trace, exp_final):
                 if kind == "later-ok":
                     d.callback(("v", j))
                 else:
-                    d.errback(AppExc(("e", j)))
+                    d.errback(app_exc(("e", j), j))
                 continue
             before = [x.liveCancels for x in env.ds]
             ret.cancel()
@@ -358,7 +383,7 @@ def run_real(flavour, program, decisions, exp_trace, exp_final):
                 if kind == "later-ok":
                     d.callback(("v", j))
                 else:
-                    d.errback(AppExc(("e", j)))
+                    d.errback(app_exc(("e", j), j))
         if not bad:
             # cancel after completion must be a no-op
             n0 = len(fired)
@@ -367,9 +392,12 @@ def run_real(flavour, program, decisions, exp_trace, exp_final):
                 ret.cancel()
                 if len(fired) != n0 or [x.liveCancels for x in env.ds] != live0:
                     bad.append((comp + ":cancel-after-completion-had-an-effect" + suffix(), ""))
-    except Exception as e:  # raised out of callback()/errback()/cancel()/the call itself
+    except (Exception, AppBase) as e:  # raised out of callback()/errback()/cancel()/the call itself
         import traceback
-        bad.append(("%s:exception-escaped:%s%s" % (comp, type(e).__name__, suffix()),
+        where = "from-the-call" if ret is None else "into-the-environment"
+        bad.append(("%s:function-exception-escaped-%s:%s%s" % (comp, where, type(e).__name__, suffix())
+                    if isinstance(e, APP) else
+                    "%s:exception-escaped:%s%s" % (comp, type(e).__name__, suffix()),
                     traceback.format_exc()[-1200:]))
     if not bad:
         if env.trace != exp_trace or env.diverged:
@@ -389,9 +417,18 @@ def run_real(flavour, program, decisions, exp_trace, exp_final):
     for j, d in enumerate(env.ds):
         left = []
         d.addBoth(left.append)
-        if left and isinstance(left[0], Failure) and not bad and not isinstance(left[0].value, (AppExc, CancelledError)):
-            bad.append(("%s:exception-inside-machinery:%s%s" % (comp, type(left[0].value).__name__, suffix()),
-                        "awaited Deferred #%d ends with %r" % (j, left[0].value)))
+        if left and isinstance(left[0], Failure) and not bad:
+            v = left[0].value
+            # a coroutine awaiting an already failed Deferred leaves that Deferred's own failure in place
+            own = isinstance(v, CancelledError) or (isinstance(v, APP) and v.tag in (("e", j), ("ce", j)))
+            if own:
+                continue
+            if isinstance(v, APP):
+                bad.append(("%s:function-exception-escaped-into-awaited-deferred-chain:%s%s" % (
+                    comp, type(v).__name__, suffix()), "awaited Deferred #%d ends with %r" % (j, v)))
+            else:
+                bad.append(("%s:exception-inside-machinery:%s%s" % (comp, type(v).__name__, suffix()),
+                            "awaited Deferred #%d ends with %r" % (j, v)))
     return bad, env
 
 
@@ -521,7 +558,7 @@ def run_shard(shard, tier, seed):
             if menv.suspensions:
                 st.nt((idx, tuple(ch.choices)))
             st.outcome("%s%s" % (final[0] if final[0] == "return" else
-                                 ("raise-CancelledError" if final[1] == "CancelledError" else "raise-app"),
+                                 ("raise-CancelledError" if final[1] == "CancelledError" else "raise-" + final[1][0]),
                                  ":cancelled-%d" % menv.ncancels if menv.ncancels else ""))
             for fl in ("icb", "coro"):
                 bad, _ = run_real(fl, program, menv.decisions, menv.trace, final)
